@@ -74,7 +74,7 @@ type Settings struct {
 	FloatPrec    int     `json:"float_prec"`             // -1 default
 	ErrMarshal   string  `json:"err_marshal,omitempty"`  // "" identity | string | obj | othererr | nil | struct
 	StackMarshal string  `json:"stack_marshal,omitempty"` // "" unset | nil | string | error | obj | frames
-	IfaceMarshal string  `json:"iface_marshal,omitempty"` // "" default | stdjson
+	IfaceMarshal string  `json:"iface_marshal,omitempty"` // "" default | stdjson | wrap
 	ClockSec     int64   `json:"clock_sec,omitempty"`
 	ClockNsec    int64   `json:"clock_nsec,omitempty"`
 }
